@@ -103,7 +103,31 @@ fn conj(mut xs: Vec<F>) -> F {
 pub fn gen_family(r: &mut Rng, n: usize) -> Vec<F> {
     let at = |i: usize| F::Atom(i % n);
     let not = |f: F| F::Not(Box::new(f));
-    match r.below(8) {
+    match r.below(9) {
+        // converse pairs: the same connective over the same operands in both argument orders
+        // (exercises memo tables keyed by operand triples)
+        8 => {
+            let mut v: Vec<F> = (0..n).map(|i| if r.bool() { not(at(i + 1)) } else { gen_f(r, n, 1) }).collect();
+            let pairs = r.range(1, 2.max(n / 2));
+            for _ in 0..pairs {
+                let (x, y) = (r.usize(n), r.usize(n));
+                let (i, j) = (r.usize(n), r.usize(n));
+                let ax = if r.chance(1, 3) { not(at(x)) } else { at(x) };
+                let ay = if r.chance(1, 3) { F::And(Box::new(at(y)), Box::new(at(y + 1))) } else { at(y) };
+                let mk = |k: u64, a: F, b: F| match k {
+                    0 => F::Imp(Box::new(a), Box::new(b)),
+                    1 => F::And(Box::new(a), Box::new(b)),
+                    2 => F::Or(Box::new(a), Box::new(b)),
+                    3 => F::Xor(Box::new(a), Box::new(b)),
+                    _ => F::Iff(Box::new(a), Box::new(b)),
+                };
+                let k = r.below(8).min(4) ^ 0; // implication weighted (0 appears via the min below)
+                let k = if r.chance(1, 2) { 0 } else { k };
+                v[i] = mk(k, ax.clone(), ay.clone());
+                v[j] = mk(k, ay, ax);
+            }
+            v
+        }
         // propagation chain needing n grounding rounds (random direction, random polarity)
         0 => {
             let rev = r.bool();
@@ -976,6 +1000,14 @@ impl Exec {
         let bg = bio.grounded();
         let bc: Vec<Vec<Term>> = bio.complete().collect();
         let bs: Vec<Vec<Term>> = bio.stable().collect();
+        // the single-formula rewriting variants under this presentation (own objects)
+        let bio2 = BdAdf::from_parser_with_stm_rewrite(parser);
+        let brew = bio2.stable_bdd_representation();
+        let brew0 = bio.stable_bdd_representation();
+        let mut adf2 = Adf::from_parser(parser);
+        let nrew = adf2.stable_bdd_representation(&bio2);
+        let mut adf3 = bio.hybrid_step();
+        let hpre: Vec<Vec<Term>> = adf3.stable_with_prefilter().collect();
         let hex = |s: &str| s.bytes().map(|b| format!("{b:02x}")).collect::<String>();
         let order_s = order.iter().map(|x| x.to_string()).collect::<Vec<_>>().join(",");
         let perm_s = perm.iter().map(|x| x.to_string()).collect::<Vec<_>>().join(",");
@@ -984,8 +1016,8 @@ impl Exec {
             format!("presented {perm_s} {order_s}"),
             format!("= {} ; {} ; {} ; {} ; {}", ac, vec_s(&g), vecs_s(&c), vecs_s(&st), vecs_s(&tv)),
             format!(
-                "~ grounded={} complete={} stable={} twoval={} biogrounded={} biocomplete={} biostable={}",
-                back(&g), set(&c), set(&st), set(&tv), back(&bg), set(&bc), set(&bs)
+                "~ grounded={} complete={} stable={} twoval={} biogrounded={} biocomplete={} biostable={} biorew={} biorew2={} natrew={} hybpre={}",
+                back(&g), set(&c), set(&st), set(&tv), back(&bg), set(&bc), set(&bs), set(&brew0), set(&brew), set(&nrew), set(&hpre)
             ),
             format!(
                 "ordercheck {sort} {perm_s} {} {order_s}",
